@@ -275,7 +275,8 @@ fn eval_payload(name: &str, idx: usize, vn: &str, vt: &VarTy, payload: &Node) ->
         VarTy::Unit => {
             if is_nullish(payload) {
                 mk(VarVal::Unit)
-            } else if matches!(payload.kind, Kind::Alias(_)) {
+            } else if matches!(payload.kind, Kind::Alias(_)) || (payload.tag.is_some() && is_nullish(&Node { tag: None, ..payload.clone() })) {
+                // a null-like payload carrying a tag: what the tag makes of it is not specified
                 Ref::Unspec
             } else {
                 // a value where a unit is expected is a kind mismatch (a quoted empty string is a string)
@@ -298,7 +299,7 @@ fn eval_payload(name: &str, idx: usize, vn: &str, vt: &VarTy, payload: &Node) ->
             },
             Kind::Seq(_) => Ref::Unspec,
             _ => {
-                if is_nullish(payload) {
+                if is_nullish(payload) || (payload.tag.is_some() && is_nullish(&Node { tag: None, ..payload.clone() })) {
                     Ref::Unspec
                 } else {
                     Ref::Err("scalar for struct variant".into())
@@ -326,7 +327,17 @@ fn eval_enum(name: &str, variants: &[(String, VarTy)], n: &Node) -> Ref {
                     return Ref::Unspec;
                 }
                 match &variants[i].1 {
-                    VarTy::Unit => Ref::Unspec,
+                    // `!U` alone (or with a null) is the unit variant; any other payload is a kind mismatch, as in
+                    // the mapping notation
+                    VarTy::Unit => {
+                        if is_nullish(&p) {
+                            Ref::Val(Dyn::Variant { enum_name: name.to_string(), index: i as u32, variant: variants[i].0.clone(), val: VarVal::Unit })
+                        } else if matches!(p.kind, Kind::Alias(_)) {
+                            Ref::Unspec
+                        } else {
+                            Ref::Err("payload for a tagged unit variant".into())
+                        }
+                    }
                     vt => eval_payload(name, i, &variants[i].0, vt, &p),
                 }
             }
@@ -464,6 +475,7 @@ pub fn canon(ty: &Ty, next: &mut u32) -> Vec<Node> {
                     VarTy::Unit => {
                         out.push(Node::plain(vn));
                         out.push(Node::map(vec![(Node::plain(vn), Node::plain("~"))]));
+                        out.push(Node::plain("~").tagged(&format!("!{}", vn)));
                     }
                     VarTy::Newtype(t) => {
                         for p in canon(t, next) {
@@ -664,6 +676,8 @@ pub fn mutants(doc: &Node) -> Vec<(String, Node)> {
             }
             _ => None,
         });
+        add("tagged_payload_word", &|x| if x.tag.is_some() && is_nullish(&Node { tag: None, ..x.clone() }) { Some(Node { kind: Kind::Scalar { text: "t98".into(), style: Style::Plain }, ..x.clone() }) } else { None });
+        add("tagged_payload_seq", &|x| if x.tag.is_some() && is_nullish(&Node { tag: None, ..x.clone() }) { Some(Node { tag: x.tag.clone(), ..Node::seq(vec![p("99")]).flowed() }) } else { None });
         add("retag", &|x| if x.tag.is_some() { Some(Node { tag: Some("!Zz".into()), ..x.clone() }) } else { None });
         add("untag", &|x| if x.tag.is_some() { Some(Node { tag: None, ..x.clone() }) } else { None });
     }
@@ -931,6 +945,165 @@ pub fn ty_show(t: &Ty) -> String {
     }
 }
 
+
+// ---------------------------------------------------------------------------------------------
+// arity across sources: a sequence read into a fixed-length target must get the same verdict whether it is read from
+// the live stream, from a merge-derived value, through an alias, as a mapping key (all three are replayed from
+// recorded buffers) or as a document of a streaming iterator.
+
+#[derive(Debug, PartialEq, serde::Deserialize)]
+struct HasP<P> {
+    p: P,
+}
+#[derive(Debug, PartialEq, serde::Deserialize)]
+struct ViaAlias<P> {
+    #[allow(dead_code)]
+    base: serde::de::IgnoredAny,
+    x: HasP<P>,
+}
+/// order-preserving list of (key, value)
+#[derive(Debug, PartialEq)]
+struct Pairs<K, V>(Vec<(K, V)>);
+impl<'de, K: serde::Deserialize<'de>, V: serde::Deserialize<'de>> serde::Deserialize<'de> for Pairs<K, V> {
+    fn deserialize<D: serde::Deserializer<'de>>(d: D) -> Result<Self, D::Error> {
+        struct Vis<K, V>(std::marker::PhantomData<(K, V)>);
+        impl<'de, K: serde::Deserialize<'de>, V: serde::Deserialize<'de>> serde::de::Visitor<'de> for Vis<K, V> {
+            type Value = Pairs<K, V>;
+            fn expecting(&self, f: &mut std::fmt::Formatter) -> std::fmt::Result {
+                f.write_str("a mapping")
+            }
+            fn visit_map<A: serde::de::MapAccess<'de>>(self, mut a: A) -> Result<Pairs<K, V>, A::Error> {
+                let mut v = Vec::new();
+                while let Some(k) = a.next_key()? {
+                    v.push((k, a.next_value()?));
+                }
+                Ok(Pairs(v))
+            }
+        }
+        d.deserialize_map(Vis(std::marker::PhantomData))
+    }
+}
+
+fn arity_for<P: serde::de::DeserializeOwned + std::fmt::Debug + PartialEq + 'static>(acc: &mut Acc, tyname: &str, seqs: &[String]) {
+    for seq in seqs {
+        let live = guarded(|| serde_saphyr::from_str::<P>(seq).map(|v| format!("{:?}", v)).map_err(|_| ()));
+        let live = match live {
+            Ok(l) => l,
+            Err(p) => {
+                acc.add_violation(format!("panic|arity {} as {}", seq, tyname), "panic", p, json!({"seq": seq, "type": tyname}), json!({}));
+                continue;
+            }
+        };
+        let mut record = |name: &str, doc: String, got: Result<Result<String, ()>, String>| {
+            acc.evaluations += 1;
+            acc.execs += 1;
+            acc.compared += 1;
+            acc.nontrivial += 1;
+            acc.class("arity_across_sources", 1);
+            match got {
+                Err(p) => acc.add_violation(format!("panic|arity {} as {} via {}", seq, tyname, name), "panic", p, json!({"seq": seq, "type": tyname, "source": name}), json!({})),
+                Ok(g) => {
+                    if g != live {
+                        acc.add_violation(
+                            format!("verdict_depends_on_source|{} as {}|{}", seq, tyname, name),
+                            "verdict_depends_on_source",
+                            format!("{:?}: the sequence {} read as {} from the live stream gives {:?} but {:?} when it is {}", doc, seq, tyname, live, g, name),
+                            json!({"seq": seq, "type": tyname, "source": name}),
+                            json!({}),
+                        );
+                    }
+                }
+            }
+        };
+        // own mapping value (live)
+        let d = format!("p: {}\n", seq);
+        record("an own mapping value", d.clone(), guarded(|| serde_saphyr::from_str::<HasP<P>>(&d).map(|v| format!("{:?}", v.p)).map_err(|_| ())));
+        // merge-derived value
+        let d = format!("<<: {{p: {}}}\n", seq);
+        record("a merge-derived value", d.clone(), guarded(|| serde_saphyr::from_str::<HasP<P>>(&d).map(|v| format!("{:?}", v.p)).map_err(|_| ())));
+        // merge through an alias
+        let d = format!("base: &b {{p: {}}}\nx: {{<<: *b}}\n", seq);
+        record("a value merged through an alias", d.clone(), guarded(|| serde_saphyr::from_str::<ViaAlias<P>>(&d).map(|v| format!("{:?}", v.x.p)).map_err(|_| ())));
+        // aliased value
+        let d = format!("- &a {}\n- *a\n", seq);
+        record("an aliased sequence item", d.clone(), guarded(|| serde_saphyr::from_str::<(serde::de::IgnoredAny, P)>(&d).map(|v| format!("{:?}", v.1)).map_err(|_| ())));
+        // mapping key
+        let d = format!("? {}\n: 5\n", seq);
+        record("a mapping key", d.clone(), guarded(|| serde_saphyr::from_str::<Pairs<P, i64>>(&d).map(|v| v.0.into_iter().next().map(|kv| format!("{:?}", kv.0)).unwrap_or_default()).map_err(|_| ())));
+        // document of the streaming iterator: exactly one item, the live verdict, and the iterator ends
+        let d = format!("{}\n", seq);
+        let items = guarded(|| {
+            let mut rd = std::io::Cursor::new(d.as_bytes().to_vec());
+            let v: Vec<Result<String, ()>> = serde_saphyr::read::<_, P>(&mut rd).take(4).map(|r| r.map(|v| format!("{:?}", v)).map_err(|_| ())).collect();
+            v
+        });
+        record(
+            "the only document of a streaming iterator",
+            d.clone(),
+            items.map(|v| if v.len() == 1 { v[0].clone() } else if v.is_empty() { Err(()) } else { Ok(format!("{} items: {:?}", v.len(), v)) }),
+        );
+    }
+}
+
+fn arity_pass(acc: &mut Acc, tier: Tier) {
+    let elems = ["1", "2", "x", "[1, 2]", "[1, 2, 3]", "~"];
+    let mut seqs: Vec<String> = Vec::new();
+    let maxlen = tier.pick(3, 4);
+    let mut idx = vec![0usize; 0];
+    // all element lists up to maxlen
+    fn rec(cur: &mut Vec<usize>, maxlen: usize, n: usize, out: &mut Vec<Vec<usize>>) {
+        out.push(cur.clone());
+        if cur.len() == maxlen {
+            return;
+        }
+        for i in 0..n {
+            cur.push(i);
+            rec(cur, maxlen, n, out);
+            cur.pop();
+        }
+    }
+    let mut all = Vec::new();
+    rec(&mut idx, maxlen, elems.len(), &mut all);
+    for l in all {
+        seqs.push(format!("[{}]", l.iter().map(|&i| elems[i]).collect::<Vec<_>>().join(", ")));
+    }
+    arity_for::<(i64, i64)>(acc, "(i64, i64)", &seqs);
+    arity_for::<[i64; 2]>(acc, "[i64; 2]", &seqs);
+    arity_for::<((i64, i64), Option<String>)>(acc, "((i64, i64), Option<String>)", &seqs);
+    arity_for::<(i64, Vec<i64>)>(acc, "(i64, Vec<i64>)", &seqs);
+    arity_for::<Vec<(i64, i64)>>(acc, "Vec<(i64, i64)>", &seqs);
+    arity_for::<(Option<i64>,)>(acc, "(Option<i64>,)", &seqs);
+    // a `!!binary` scalar read as a sequence of bytes is the written-out sequence of its bytes
+    fn bin<P: serde::de::DeserializeOwned + std::fmt::Debug + 'static>(acc: &mut Acc, tyname: &str) {
+        use base64::Engine;
+        for n in 0..=4usize {
+            let bytes: Vec<u8> = (1..=n as u8).collect();
+            let b64 = base64::engine::general_purpose::STANDARD.encode(&bytes);
+            let tagged = format!("!!binary {}\n", if b64.is_empty() { "\"\"".to_string() } else { b64 });
+            let written = format!("[{}]\n", bytes.iter().map(|b| b.to_string()).collect::<Vec<_>>().join(", "));
+            acc.evaluations += 1;
+            acc.execs += 2;
+            acc.compared += 1;
+            acc.nontrivial += 1;
+            acc.class("binary_as_byte_sequence", 1);
+            let a = guarded(|| serde_saphyr::from_str::<P>(&tagged).map(|v| format!("{:?}", v)).map_err(|_| ()));
+            let b = guarded(|| serde_saphyr::from_str::<P>(&written).map(|v| format!("{:?}", v)).map_err(|_| ()));
+            if a != b {
+                acc.add_violation(
+                    format!("binary_differs_from_byte_sequence|{} bytes as {}", n, tyname),
+                    "binary_differs_from_byte_sequence",
+                    format!("{:?} as {} gives {:?} but the same bytes written as {:?} give {:?}", tagged, tyname, a, written, b),
+                    json!({"bytes": n, "type": tyname}),
+                    json!({}),
+                );
+            }
+        }
+    }
+    bin::<(u8, u8)>(acc, "(u8, u8)");
+    bin::<[u8; 2]>(acc, "[u8; 2]");
+    bin::<Vec<u8>>(acc, "Vec<u8>");
+}
+
 pub fn run(ctx: &Ctx) -> i32 {
     let p = C05;
     let max = ctx.tier.pick(3, 4);
@@ -964,9 +1137,11 @@ pub fn run(ctx: &Ctx) -> i32 {
             acc
         })
         .reduce(Acc::default, Acc::merge);
+    let mut acc = acc;
+    arity_pass(&mut acc, ctx.tier);
     let meta = Meta {
         level: "model_checking",
-        rule: "all schemas up to the constructor bound x all canonical documents (every enum variant in every notation) x all single-edit mutants x 2 layouts; non-trivial = the document is a mutant (almost matching)".into(),
+        rule: "all schemas up to the constructor bound x all canonical documents (every enum variant in every notation) x all single-edit mutants x 2 layouts; plus 'arity across sources': every flow sequence of up to 3 (thorough 4) elements over {1, 2, x, [1, 2], [1, 2, 3], ~} read into 6 fixed-length targets from the live stream vs as a merge-derived value, through an alias, as a mapping key and as the document of a streaming iterator (same verdict required); non-trivial = the document is a mutant (almost matching)".into(),
         exhaustive: true,
         bounds: json!({"max_type_constructors": max, "schemas": all.len(), "double_edits_for_enum_seq_tuple_map_schemas_up_to_size": double_max}),
         assumptions: vec![
